@@ -338,7 +338,7 @@ Lemma dbis_weight_bounds l :
 Proof.
   induction l as [|o l [IH1 IH2]]; cbn [length dbis_weight fold_right]; [split; [lia|constructor]|].
   fold (dbis_weight l). pose proof (zlen_nonneg (o_data o)). split; [lia|].
-  constructor; [lia|]. eapply Forall_impl; [|trivH2]. intros a Ha. cbv beta in *. lia.
+  constructor; [lia|]. eapply Forall_impl; [|exact IH2]. intros a Ha. cbv beta in *. lia.
 Qed.
 
 (* the invariant of the Unmarshal loop: the offset is inside the buffer, and the DBI objects decoded so
@@ -409,9 +409,8 @@ Theorem custom_decode_safe b : (zlen b <= max_int)%Z -> safe (fun _ => True) (cu
 Proof.
   intros Hmax. unfold custom_decode.
   pose proof (snap_unmarshal_objs b) as Hobjs.
-  destruct (snap_unmarshal b) as [s| | |] eqn:Hs; cbn [bind safe]; auto;
-    [|pose proof (snap_unmarshal_safe b Hmax) as Hx; rewrite Hs in Hx; exact Hx
-     |pose proof (snap_unmarshal_safe b Hmax) as Hx; rewrite Hs in Hx; exact Hx].
+  pose proof (snap_unmarshal_safe b Hmax) as Hx.
+  destruct (snap_unmarshal b) as [s|e| |] eqn:Hs; cbn [bind safe] in Hx |- *; try exact Hx.
   destruct (Hobjs s Hmax eq_refl) as [_ Hall].
   sbind; [apply (mapM_safe dbi_content _ (fun _ => True) _ Hall)|].
   - intros o Ho. cbv beta in Ho. apply dbi_content_safe. pose proof (zlen_nonneg (o_data o)). lia.
